@@ -1,9 +1,10 @@
 import IastModel.Lemmas.ErBlk
 namespace IastModel
 open Node
+variable {cfg : Config}
 
 theorem toDdBinary_blk (cfg : Config) (op : String) (l r : Node) (sp : Span) (s : St)
-    (hl : blkOk l = true) (hr : blkOk r = true) : ∀ e1, (toDdBinary cfg (.bin op l r sp) s).1 = some e1 → blkOk e1 = true := by
+    (hl : blkOk cfg l = true) (hr : blkOk cfg r = true) : ∀ e1, (toDdBinary cfg (.bin op l r sp) s).1 = some e1 → blkOk cfg e1 = true := by
   simp only [toDdBinary, run_bind]
   have h1 := replaceExpr_blk l (getIdentMode r) [] [] sp .expr false s hl rfl rfl
   generalize replaceExpr l (getIdentMode r) [] [] sp .expr false s = R1 at h1 ⊢
@@ -23,7 +24,7 @@ theorem toDdBinary_blk (cfg : Config) (op : String) (l r : Node) (sp : Span) (s 
   · simp only [run_pure]; intro e1 he; cases he
 
 theorem toDdTpl_blk (cfg : Config) (es qs : List Node) (sp : Span) (s : St)
-    (he : blkOkL es = true) (hq : blkOkL qs = true) : ∀ e1, (toDdTpl cfg (.tpl es qs sp) s).1 = some e1 → blkOk e1 = true := by
+    (he : blkOkL cfg es = true) (hq : blkOkL cfg qs = true) : ∀ e1, (toDdTpl cfg (.tpl es qs sp) s).1 = some e1 → blkOk cfg e1 = true := by
   simp only [toDdTpl, run_bind, run_pure]
   have h := replaceTplExprs_blk es [] [] s he rfl rfl
   generalize replaceTplExprs es [] [] s = R at h ⊢
@@ -34,9 +35,9 @@ theorem toDdTpl_blk (cfg : Config) (es qs : List Node) (sp : Span) (s : St)
   subst he1
   exact blkOk_ddParen _ _ _ _ _ (by simp only [blkOk_tpl, Bool.and_eq_true]; exact ⟨a1, hq⟩) a3 a2
 
-def Blk2 (R : (Node × Node) × St) : Prop := blkOk R.1.1 = true ∧ blkOk R.1.2 = true
+def Blk2 (cfg : Config) (R : (Node × Node) × St) : Prop := blkOk cfg R.1.1 = true ∧ blkOk cfg R.1.2 = true
 
-theorem hoistTargetPart_blk (e : Node) (sp : Span) (s : St) (he : blkOk e = true) : Blk2 (hoistTargetPart e sp s) := by
+theorem hoistTargetPart_blk (e : Node) (sp : Span) (s : St) (he : blkOk cfg e = true) : Blk2 cfg (hoistTargetPart e sp s) := by
   unfold hoistTargetPart Blk2
   simp only [run_bind]
   rcases getTemporalIdent_casesC (seqOperand e) [] sp .expr s with ⟨_, h⟩ | ⟨_, s', h, _⟩
@@ -45,13 +46,13 @@ theorem hoistTargetPart_blk (e : Node) (sp : Span) (s : St) (he : blkOk e = true
     simp only [List.nil_append, List.getLast?_singleton, run_pure]
     simp [blkOk_seqOperand, he]
 
-theorem splitComputedKey_blk (csp : Span) (e : Node) (sp : Span) (s : St) (he : blkOk e = true) : Blk2 (splitComputedKey csp e sp s) := by
+theorem splitComputedKey_blk (csp : Span) (e : Node) (sp : Span) (s : St) (he : blkOk cfg e = true) : Blk2 cfg (splitComputedKey csp e sp s) := by
   unfold splitComputedKey
   simp only [run_bind, run_pure]
   have := hoistTargetPart_blk e sp s he
   simpa [Blk2] using this
 
-theorem splitProp_blk (prop : Node) (sp : Span) (s : St) (hp : blkOk prop = true) : Blk2 (splitProp prop sp s) := by
+theorem splitProp_blk (prop : Node) (sp : Span) (s : St) (hp : blkOk cfg prop = true) : Blk2 cfg (splitProp prop sp s) := by
   unfold splitProp
   split
   · rename_i csp e
@@ -60,7 +61,7 @@ theorem splitProp_blk (prop : Node) (sp : Span) (s : St) (hp : blkOk prop = true
     · simp only [run_pure]; exact ⟨hp, hp⟩
   · simp only [run_pure]; exact ⟨hp, hp⟩
 
-theorem splitMemberTarget_blk (sp : Span) : ∀ (left : Node) (s : St), blkOk left = true → Blk2 (splitMemberTarget left sp s) := by
+theorem splitMemberTarget_blk (sp : Span) : ∀ (left : Node) (s : St), blkOk cfg left = true → Blk2 cfg (splitMemberTarget left sp s) := by
   apply Node.ind
   intro left ih s hl
   unfold splitMemberTarget
@@ -97,7 +98,7 @@ theorem splitMemberTarget_blk (sp : Span) : ∀ (left : Node) (s : St), blkOk le
   · simp only [run_pure]; exact ⟨hl, hl⟩
 
 theorem toDdAssign_blk (cfg : Config) (op : String) (l r : Node) (sp : Span) (s : St)
-    (hl : blkOk l = true) (hr : blkOk r = true) : ∀ e1, (toDdAssign cfg (.assign op l r sp) s).1 = some e1 → blkOk e1 = true := by
+    (hl : blkOk cfg l = true) (hr : blkOk cfg r = true) : ∀ e1, (toDdAssign cfg (.assign op l r sp) s).1 = some e1 → blkOk cfg e1 = true := by
   simp only [toDdAssign]
   split
   · simp only [run_pure]; intro e1 he; cases he
@@ -120,9 +121,9 @@ theorem toDdAssign_blk (cfg : Config) (op : String) (l r : Node) (sp : Span) (s 
       simp [a1, h2 e' rfl]
 
 theorem replaceCallCalleeAndArgs_blk (callee : Node) (cargs : List Node) (csp : Span) (ic : Option Node) (asg args : List Node)
-    (coa : Option String) (s : St) (hc : blkOk callee = true) (hic : ∀ i, ic = some i → blkOk i = true)
-    (hca : blkOkL cargs = true) (ha : blkOkL asg = true) (hg : blkOkL args = true) :
-    Blk3 (replaceCallCalleeAndArgs callee cargs csp ic asg args coa s) := by
+    (coa : Option String) (s : St) (hc : blkOk cfg callee = true) (hic : ∀ i, ic = some i → blkOk cfg i = true)
+    (hca : blkOkL cfg cargs = true) (ha : blkOkL cfg asg = true) (hg : blkOkL cfg args = true) :
+    Blk3 cfg (replaceCallCalleeAndArgs callee cargs csp ic asg args coa s) := by
   unfold replaceCallCalleeAndArgs
   simp only [run_bind, run_pure]
   have h := replaceArgs_blk .replace csp (coa.getD Generated.callMethodName == Generated.applyMethodName) cargs asg args s hca ha hg
@@ -134,7 +135,7 @@ theorem replaceCallCalleeAndArgs_blk (callee : Node) (cargs : List Node) (csp : 
   | none => exact hc
   | some i => simp [hic i rfl]
 
-theorem insertThis_blk (c this : Node) (hc : blkOk c = true) (ht : blkOk this = true) : blkOk (insertThis c this) = true := by
+theorem insertThis_blk (c this : Node) (hc : blkOk cfg c = true) (ht : blkOk cfg this = true) : blkOk cfg (insertThis c this) = true := by
   unfold insertThis
   split
   · simp only [blkOk_call, Bool.and_eq_true] at hc ⊢
@@ -143,14 +144,14 @@ theorem insertThis_blk (c this : Node) (hc : blkOk c = true) (ht : blkOk this = 
 
 theorem callTail_blk (csi : CsiMethod) (expr : Node) (method : String) (msp : Span) (callee : Node) (cargs : List Node)
     (csp : Span) (mo : Option Node) (coa : Option String) (idR : Node) (asg0 : List Node) (s0 : St)
-    (he : blkOk expr = true) (hc : blkOk callee = true) (hca : blkOkL cargs = true) (hmo : ∀ m, mo = some m → blkOk m = true)
-    (hidR : blkOk idR = true) (h0 : blkOkL asg0 = true) :
-    ∀ e1 tag, (callTail csi expr method msp callee cargs csp mo coa idR asg0 s0).1 = some (e1, tag) → blkOk e1 = true := by
+    (he : blkOk cfg expr = true) (hc : blkOk cfg callee = true) (hca : blkOkL cfg cargs = true) (hmo : ∀ m, mo = some m → blkOk cfg m = true)
+    (hidR : blkOk cfg idR = true) (h0 : blkOkL cfg asg0 = true) :
+    ∀ e1 tag, (callTail csi expr method msp callee cargs csp mo coa idR asg0 s0).1 = some (e1, tag) → blkOk cfg e1 = true := by
   unfold callTail
   cases mo with
   | none =>
     simp only [run_bind, run_pure]
-    have hme : blkOk (Node.member idR (.pname method msp) csp) = true := by simp [hidR]
+    have hme : blkOk cfg (Node.member idR (.pname method msp) csp) = true := by simp [hidR]
     have h1 := getIdentUsed_blk (Node.member idR (.pname method msp) csp) asg0 [] csp .expr s0 hme h0 rfl
     generalize getIdentUsed (Node.member idR (.pname method msp) csp) asg0 [] csp .expr s0 = R1 at h1 ⊢
     obtain ⟨⟨ic, asg1, args1⟩, s1⟩ := R1
@@ -167,7 +168,7 @@ theorem callTail_blk (csi : CsiMethod) (expr : Node) (method : String) (msp : Sp
     exact blkOk_ddParen _ _ _ _ _ (insertThis_blk _ _ b1 hidR) b3 b2
   | some m =>
     simp only [run_bind, run_pure]
-    have hme : blkOk m = true := hmo m rfl
+    have hme : blkOk cfg m = true := hmo m rfl
     have h1 := getIdentUsed_blk m asg0 [] csp .expr s0 hme h0 rfl
     generalize getIdentUsed m asg0 [] csp .expr s0 = R1 at h1 ⊢
     obtain ⟨⟨ic, asg1, args1⟩, s1⟩ := R1
@@ -185,8 +186,8 @@ theorem callTail_blk (csi : CsiMethod) (expr : Node) (method : String) (msp : Sp
 
 theorem replaceCallWithMember_blk (cfg : Config) (expr : Node) (method : String) (msp : Span) (callee : Node) (cargs : List Node)
     (csp : Span) (mo : Option Node) (coa : Option String) (s : St)
-    (he : blkOk expr = true) (hc : blkOk callee = true) (hca : blkOkL cargs = true) (hmo : ∀ m, mo = some m → blkOk m = true) :
-    ∀ e1 tag, (replaceCallWithMember cfg expr method msp callee cargs csp mo coa s).1 = some (e1, tag) → blkOk e1 = true := by
+    (he : blkOk cfg expr = true) (hc : blkOk cfg callee = true) (hca : blkOkL cfg cargs = true) (hmo : ∀ m, mo = some m → blkOk cfg m = true) :
+    ∀ e1 tag, (replaceCallWithMember cfg expr method msp callee cargs csp mo coa s).1 = some (e1, tag) → blkOk cfg e1 = true := by
   rw [replaceCallWithMember_eq]
   cases cfg.get method with
   | none => intro e1 tag h; cases h
@@ -199,8 +200,8 @@ theorem replaceCallWithMember_blk (cfg : Config) (expr : Node) (method : String)
       exact callTail_blk csi expr method msp callee cargs csp mo coa (tempIdent s.counter) _ s0 he hc hca hmo (by simp) (by simp [he])
 
 theorem replaceCallSpread_blk (cfg : Config) (method : String) (callee : Node) (cargs : List Node) (csp : Span) (me : Node)
-    (coa : String) (s : St) (hc : blkOk callee = true) (hca : blkOkL cargs = true) (hme : blkOk me = true) :
-    ∀ e1 tag, (replaceCallSpreadWithMember cfg method callee cargs csp me coa s).1 = some (e1, tag) → blkOk e1 = true := by
+    (coa : String) (s : St) (hc : blkOk cfg callee = true) (hca : blkOkL cfg cargs = true) (hme : blkOk cfg me = true) :
+    ∀ e1 tag, (replaceCallSpreadWithMember cfg method callee cargs csp me coa s).1 = some (e1, tag) → blkOk cfg e1 = true := by
   unfold replaceCallSpreadWithMember
   cases cfg.get method with
   | none => simp only [run_pure]; intro e1 tag h; cases h
@@ -225,8 +226,8 @@ theorem replaceCallSpread_blk (cfg : Config) (method : String) (callee : Node) (
       exact blkOk_ddParen _ _ _ _ _ b1 b3 b2
 
 theorem replaceCallWithoutCallee_blk (cfg : Config) (name : Name) (isp : Span) (callee : Node) (cargs : List Node) (csp : Span) (s : St)
-    (hc : blkOk callee = true) (hca : blkOkL cargs = true) :
-    ∀ e1 tag, (replaceCallWithoutCallee cfg name isp callee cargs csp s).1 = some (e1, tag) → blkOk e1 = true := by
+    (hc : blkOk cfg callee = true) (hca : blkOkL cfg cargs = true) :
+    ∀ e1 tag, (replaceCallWithoutCallee cfg name isp callee cargs csp s).1 = some (e1, tag) → blkOk cfg e1 = true := by
   unfold replaceCallWithoutCallee
   cases name with
   | temp k => simp only [run_pure]; intro e1 tag h; cases h
@@ -251,12 +252,12 @@ theorem replaceCallWithoutCallee_blk (cfg : Config) (name : Name) (isp : Span) (
         exact blkOk_ddParen _ _ _ _ _ b1 b3 b2
       · simp only [run_pure]; intro e1 tag h; cases h
 
-theorem blkOk_argExpr {a : Node} (h : blkOk a = true) : blkOk (argExpr a) = true := by
+theorem blkOk_argExpr {a : Node} (h : blkOk cfg a = true) : blkOk cfg (argExpr a) = true := by
   cases a <;> first | exact h | simpa [argExpr] using h
 
 theorem replacePrototype_blk (cfg : Config) (cargs : List Node) (csp : Span) (callee member : Node) (coa : String) (s : St)
-    (hc : blkOk callee = true) (hca : blkOkL cargs = true) (hm : blkOk member = true) :
-    ∀ e1 tag, (replacePrototypeCallOrApply cfg cargs csp callee member coa s).1 = some (e1, tag) → blkOk e1 = true := by
+    (hc : blkOk cfg callee = true) (hca : blkOkL cfg cargs = true) (hm : blkOk cfg member = true) :
+    ∀ e1 tag, (replacePrototypeCallOrApply cfg cargs csp callee member coa s).1 = some (e1, tag) → blkOk cfg e1 = true := by
   unfold replacePrototypeCallOrApply
   split
   · simp only [run_pure]; intro e1 tag h; cases h
@@ -281,13 +282,13 @@ theorem replacePrototype_blk (cfg : Config) (cargs : List Node) (csp : Span) (ca
                 (blkOk_argExpr hca.1) (by simp [blkOk_argExpr hca.1]) hca.2 (by intro m hm'; cases hm'; exact hm)
 
 theorem toDdCall_blk (cfg : Config) (c : Node) (as : List Node) (csp : Span) (s : St)
-    (hc : blkOk c = true) (ha : blkOkL as = true) :
-    ∀ e1 tag, (toDdCall cfg (.call c as csp) s).1 = some (e1, tag) → blkOk e1 = true := by
-  have none_case : ∀ e1 tag, ((none : Option (Node × String)), s).1 = some (e1, tag) → blkOk e1 = true := by
+    (hc : blkOk cfg c = true) (ha : blkOkL cfg as = true) :
+    ∀ e1 tag, (toDdCall cfg (.call c as csp) s).1 = some (e1, tag) → blkOk cfg e1 = true := by
+  have none_case : ∀ e1 tag, ((none : Option (Node × String)), s).1 = some (e1, tag) → blkOk cfg e1 = true := by
     intro e1 tag h; cases h
   cases c with
   | member obj prop cs =>
-    have hobj : blkOk obj = true := blkOk_kids hc obj (by simp [kids])
+    have hobj : blkOk cfg obj = true := blkOk_kids hc obj (by simp [kids])
     cases prop with
     | pname m msp =>
       have plain := replaceCallWithMember_blk cfg obj m msp (.member obj (.pname m msp) cs) as csp none none s hobj hc ha
